@@ -9,7 +9,7 @@ Open Scope Z_scope.
 (* facts of the current source: the short int branch has a lower bound; send serialises before it writes *)
 Definition cfg_ok_C01 : Prop :=
   int_lo_checked = true /\ send_dumps_before_write = true /\ four_byte_int_max = INT_MAX /\ dump_version = VERSION /\
-  ser_stateless_dispatch = true.   (* values are trees for the serializer: no identity-based state, so sharing is invisible *)
+  ser_int_text_ok = true /\ ser_stateless_dispatch = true.   (* values are trees for the serializer: no identity-based state, so sharing is invisible *)
 Lemma C01_cfg_ok : cfg_ok_C01.
 Proof. repeat split; reflexivity. Qed.
 
